@@ -10,11 +10,12 @@ Colls == {"i;octet", "i;ascii-casemap", "i;unicode-casemap"}
 
 \* A: one prop-filter FN with one text-match; every card has exactly one FN
 \* values do not begin or end with a blank (a vCard writer may trim those); needles may
-Values  == {v \in Words(MaxValue) : v[1] # "sp" /\ v[Len(v)] # "sp"}
+VWords(k) == UNION {[1..j -> Letters \cup Special] : j \in 1..k}
+Values  == {v \in VWords(MaxValue) : v[1] # "sp" /\ v[Len(v)] # "sp"}
 Needles == Words(MaxNeedle)
 Tms == {[type |-> t, coll |-> c, neg |-> g, needle |-> n] : t \in Types, c \in Colls, g \in BOOLEAN, n \in Needles}
 \* for each text-match: the set of values that must be returned
-TableA == {[tm |-> tm, want |-> SetToSeq({v \in Values : TextMatch(tm, v)})] : tm \in Tms}
+TableA == {[tm |-> tm, want |-> SetToSeq({v \in Values : TextMatch(tm, v) /\ ~(tm.coll = "i;unicode-casemap" /\ HasSpecial(v))})] : tm \in Tms}
 
 \* B: structure.  Cards with FN, 0-2 EMAIL instances with / without TYPE, optional NOTE
 I(v, t) == [v |-> v, type |-> t]
